@@ -522,7 +522,7 @@ theorem handleTapDance_spec (w : Waiting) (k len : Nat) (q : List Queued) :
       if q.length % 256 == w.prevQueueLen && w.timeout > 0 then (q, none, k)
       else if w.timeout == 0 then (evictTaps w k q, some .tap, k)
       else if interrupted w q || decide (seenTaps w q ≥ len) then
-        (evictTaps w (seenTaps w q) q, some .tap, seenTaps w q)
+        (evictTaps w (inThisDance (seenTaps w q) len) q, some .tap, inThisDance (seenTaps w q) len)
       else (q, none, seenTaps w q) := by
   unfold handleTapDance
   split
@@ -603,7 +603,7 @@ inductive TdStep (w : Waiting) (acts : List Action) (T k : Nat) (q : List Queued
 def decidesOn (w : Waiting) (len k : Nat) (q : List Queued) : Option Nat :=
   if q.length % 256 == w.prevQueueLen && w.timeout > 0 then none
   else if w.timeout == 0 then some k                                     -- the countdown ended
-  else if interrupted w q || decide (seenTaps w q ≥ len) then some (seenTaps w q)   -- other key / list exhausted
+  else if interrupted w q || decide (seenTaps w q ≥ len) then some (inThisDance (seenTaps w q) len)   -- other key / list exhausted
   else none
 
 /-- **one tick of the `TapDance` arm** (`w` = the state after the countdown step), complete case
@@ -638,7 +638,7 @@ theorem tickWtTd_cases (w : Waiting) (acts : List Action) (T k : Nat) (q : List 
     · simp only [h2, Bool.false_eq_true, if_false]
       by_cases h3 : (interrupted w q || decide (seenTaps w q ≥ acts.length)) = true
       · simp only [h3, if_true]
-        cases hp : tdPick acts (seenTaps w q) with
+        cases hp : tdPick acts (inThisDance (seenTaps w q) acts.length) with
         | none =>
           have he := (tdPick_none_iff acts _).mp hp
           exact ⟨TdStep.crash he, fun n hn => by injection hn with hn; subst hn; exact Or.inr ⟨he, rfl⟩, fun h => nomatch h⟩
